@@ -4,6 +4,7 @@ working tree) and the property's quick check must report a VIOLATION; (2) every 
 caught (tools/score_mutants.py); (3) harmless edits must stay green.  Restores /repo after each step."""
 import json, subprocess, sys, os
 os.chdir('/verif')
+os.environ['VERIF_EVIDENCE_DIR'] = '/verif/out/evidence_scratch'  # never overwrite the registered evidence with a mutant run
 def sh(cmd, **kw): return subprocess.run(cmd, shell=True, capture_output=True, text=True, **kw)
 kf = json.load(open('/verif/known_findings.json'))['findings']
 fixed = {}
